@@ -137,6 +137,12 @@ def check_regions(rec, L, circular, stats=None):
         if R.bases(region.location) != union:
             fails.append(("region-span", f"{region.location} for areas {[str(areas[i].location) for i in sorted(members)]}"))
     fails.extend(numbering_problems(rec))
+    live = set(map(id, rec.get_candidate_clusters()))
+    for proto in rec.get_protoclusters():
+        if proto.parent is not None and id(proto.parent) not in live:
+            fails.append(("stale-parent", f"protocluster {proto.location} ({proto.product}) points to a candidate that is not in the record"))
+        elif proto.parent is not None and proto not in proto.parent.protoclusters:
+            fails.append(("parent-does-not-hold-child", f"protocluster {proto.location}"))
     if stats is not None and not fails:
         if len(regions) > 1:
             stats["areas:two-regions"] += 1
@@ -146,6 +152,25 @@ def check_regions(rec, L, circular, stats=None):
             stats["areas:meet-across-origin"] += 1
         if any(len(s) == L for s in region_sets):
             stats["areas:whole-record"] += 1
+    return fails
+
+
+def check_parents(nslots, circular, specs):
+    """protocluster -> candidate parent links after real candidate formation (incl. the de-duplication paths)"""
+    from mc.props import c05  # pylint: disable=import-outside-toplevel
+    try:
+        rec, protos, _ = c05.run_config(nslots, circular, specs, range(len(specs)))
+    except Exception as err:  # pylint: disable=broad-except
+        return [("formation-raised", repr(err)[:120])]
+    fails = []
+    live = set(map(id, rec.get_candidate_clusters()))
+    for proto in rec.get_protoclusters():
+        if proto.parent is None:
+            fails.append(("protocluster-without-parent", f"{proto.location} {proto.product}"))
+        elif id(proto.parent) not in live:
+            fails.append(("stale-parent", f"protocluster {proto.location} ({proto.product}) points to a candidate that is not in the record"))
+        elif proto not in proto.parent.protoclusters:
+            fails.append(("parent-does-not-hold-child", f"protocluster {proto.location}"))
     return fails
 
 
@@ -470,6 +495,9 @@ def shards(tier):
     for nslots, circ, k, reduced in plans:
         for chunk in range(N_CHUNKS):
             out.append(["areas", nslots, circ, k, reduced, chunk])
+    for circ in (False, True):
+        for chunk in range(N_CHUNKS):
+            out.append(["parents", circ, chunk, tier])
     depth = 6 if tier == "quick" else 8
     out.append(["bfs", False, depth])
     out.append(["bfs", True, depth])
@@ -500,6 +528,25 @@ def run_shard(shard):
                     for clause, detail in fails:
                         res.fail(case, clause, detail)
                     res.sample(case)
+    elif shard[0] == "parents":
+        from mc.props import c05  # pylint: disable=import-outside-toplevel
+        _, circ, chunk, tier = shard
+        menu = [m for m in c05.menu_for(6, circ, tier, 3) if P.make_protocluster(6 * P.SLOT, circ, m) is not None]
+        index = 0
+        for k in (1, 2, 3):
+            for combo in itertools.combinations(menu, k):
+                index += 1
+                if index % N_CHUNKS != chunk:
+                    continue
+                res.evals += 1
+                res.nontrivial += k > 1
+                fails = check_parents(6, circ, [list(m) for m in combo])
+                res.outcomes[("parents", tuple(sorted({c for c, _ in fails})))] += 1
+                if fails or res.evals % 2003 == 1:
+                    case = {"kind": "parents", "nslots": 6, "circ": circ, "specs": [list(m) for m in combo]}
+                    for clause, detail in fails:
+                        res.fail(case, clause, detail)
+                    res.sample(case)
     else:
         _, circ, depth = shard
         states, transitions = bfs(circ, depth, res)
@@ -517,6 +564,8 @@ def finalize(cov, tier):
 
 
 def replay(case):
+    if case["kind"] == "parents":
+        return check_parents(case["nslots"], case["circ"], case["specs"])
     if case["kind"] == "areas":
         rec, _ = build_areas(case["nslots"], case["circ"], case["areas"])
         return check_regions(rec, case["nslots"] * P.SLOT, case["circ"])
